@@ -18,6 +18,11 @@ type Opts struct {
 	Wrapped bool `json:"wrapped,omitempty"`
 	PG      bool `json:"pg,omitempty"`
 	Arrays  bool `json:"arrays,omitempty"`
+	// options that concern side channels only and never what New/Exec return
+	Unreported bool `json:"unreported,omitempty"` // UnReportedErrors(handler)
+	Callback   bool `json:"callback,omitempty"`   // CompletedCallback(func)
+	Vars       bool `json:"vars,omitempty"`       // WithVars(empty map)
+	Consts     bool `json:"consts,omitempty"`     // WithConstants(map without the keys a query uses)
 }
 
 func (o Opts) String() string {
@@ -31,9 +36,15 @@ func (o Opts) String() string {
 	if o.Arrays {
 		p = append(p, "IdomaticArrays")
 	}
+	for name, on := range map[string]bool{"UnReportedErrors": o.Unreported, "CompletedCallback": o.Callback, "WithVars": o.Vars, "WithConstants": o.Consts} {
+		if on {
+			p = append(p, name)
+		}
+	}
 	if len(p) == 0 {
 		return "none"
 	}
+	sort.Strings(p)
 	return strings.Join(p, "+")
 }
 
@@ -47,6 +58,18 @@ func (o Opts) list() []genql.QueryOption {
 	}
 	if o.Arrays {
 		l = append(l, genql.IdomaticArrays())
+	}
+	if o.Unreported {
+		l = append(l, genql.UnReportedErrors(func(error) {}))
+	}
+	if o.Callback {
+		l = append(l, genql.CompletedCallback(func() {}))
+	}
+	if o.Vars {
+		l = append(l, genql.WithVars(map[string]any{}))
+	}
+	if o.Consts {
+		l = append(l, genql.WithConstants(map[string]any{"unused_constant": 1.0}))
 	}
 	return l
 }
@@ -193,22 +216,32 @@ type Envelope struct {
 	Wrapped bool `json:"wrapped,omitempty"`  // Wrapped(): FROM <table> is rewritten to FROM root.<table>
 	MapRows bool `json:"map_rows,omitempty"` // tables are handed over as []map[string]any instead of []any
 	Twice   bool `json:"twice,omitempty"`    // the query is executed twice on the same input object
+	Prior   bool `json:"prior,omitempty"`    // the same query text ran before, in this process, on a different document
+	Side    Opts `json:"side,omitempty"`     // side-channel options (UnReportedErrors / CompletedCallback / WithVars / WithConstants)
 }
 
 func genEnvelope(t *rapid.T, label string) Envelope {
 	if rapid.IntRange(0, 2).Draw(t, label+".plain") != 0 {
 		return Envelope{}
 	}
-	b := rapid.IntRange(1, 31).Draw(t, label+".bits")
-	return Envelope{PG: b&1 != 0, Arrays: b&2 != 0, Wrapped: b&4 != 0, MapRows: b&8 != 0, Twice: b&16 != 0}
+	b := rapid.IntRange(1, 63).Draw(t, label+".bits")
+	e := Envelope{PG: b&1 != 0, Arrays: b&2 != 0, Wrapped: b&4 != 0, MapRows: b&8 != 0, Twice: b&16 != 0, Prior: b&32 != 0}
+	if rapid.Bool().Draw(t, label+".side") {
+		sb := rapid.IntRange(1, 15).Draw(t, label+".sidebits")
+		e.Side = Opts{Unreported: sb&1 != 0, Callback: sb&2 != 0, Vars: sb&4 != 0, Consts: sb&8 != 0}
+	}
+	return e
 }
 
 func (e Envelope) Labels() []string {
 	var l []string
-	for name, on := range map[string]bool{"envelope:PostgresEscapingDialect": e.PG, "envelope:IdiomaticArrays": e.Arrays, "envelope:Wrapped": e.Wrapped, "envelope:[]map-tables": e.MapRows, "envelope:executed-twice": e.Twice} {
+	for name, on := range map[string]bool{"envelope:PostgresEscapingDialect": e.PG, "envelope:IdiomaticArrays": e.Arrays, "envelope:Wrapped": e.Wrapped, "envelope:[]map-tables": e.MapRows, "envelope:executed-twice": e.Twice, "envelope:same-text-ran-before-on-other-document": e.Prior} {
 		if on {
 			l = append(l, name)
 		}
+	}
+	if e.Side != (Opts{}) {
+		l = append(l, "envelope:side-channel-options")
 	}
 	sort.Strings(l)
 	return l
@@ -237,7 +270,8 @@ func (e Envelope) Exec(doc map[string]any, sql string) Out {
 			}
 		}
 	}
-	o := Opts{PG: e.PG, Arrays: e.Arrays}
+	o := e.Side
+	o.PG, o.Arrays, o.Wrapped = e.PG, e.Arrays, false
 	// back references (`<-table`) are spelled relative to the caller's document: leave those alone
 	if e.Wrapped && !strings.Contains(sql, "<-") {
 		o.Wrapped = true
@@ -248,6 +282,10 @@ func (e Envelope) Exec(doc map[string]any, sql string) Out {
 			}
 			return m
 		})
+	}
+	if e.Prior {
+		// what a text returns depends on the document of the call at hand only: the outcome of this run is ignored
+		Run(priorDoc(doc), sql, o)
 	}
 	out := Run(doc, sql, o)
 	if e.Twice && out.OK() {
@@ -260,4 +298,28 @@ func (e Envelope) Exec(doc map[string]any, sql string) Out {
 		}
 	}
 	return out
+}
+
+// priorDoc returns a different document of the same shape: every table is rotated by one row and loses a row.
+func priorDoc(doc map[string]any) map[string]any {
+	d := make(map[string]any, len(doc))
+	for k, v := range doc {
+		switch rows := v.(type) {
+		case []any:
+			cp, _ := val.Copy(rows).([]any)
+			if len(cp) > 1 {
+				cp = append(cp[1:len(cp):len(cp)], cp[0])[1:]
+			}
+			d[k] = cp
+		case []map[string]any:
+			cp := make([]map[string]any, 0, len(rows))
+			for i := len(rows) - 1; i > 0; i-- {
+				cp = append(cp, val.CopyMap(rows[i]))
+			}
+			d[k] = cp
+		default:
+			d[k] = val.Copy(v)
+		}
+	}
+	return d
 }
